@@ -10,8 +10,9 @@ package c02
 //	                      q     a QUIC handshake from a fresh client: which generation's certificate answers
 //
 // Answer per op: l/c → "<refs of the quic key><refs of the udp key>", q → the generation digit or "x".
-// Lines on which Go's map iteration would decide the outcome (the oldest open listener is closed while
-// three are open) are rejected by both sides.
+// When the oldest of three open listeners is closed, Go's map iteration decides which of the two others
+// becomes the active config: from then on, until the possibilities collapse again, q prints "?" as long
+// as the observed config is one of the possible ones (tracked in poss, as in Quic.lean's QPoss).
 
 import (
 	"context"
@@ -66,7 +67,7 @@ func parseQuicOps(s string) ([]quicOp, bool) {
 						at = i
 					}
 				}
-				if at < 0 || at == 0 && len(open) >= 3 {
+				if at < 0 {
 					return nil, false
 				}
 				open = append(open[:at], open[at+1:]...)
@@ -132,7 +133,52 @@ func (p *prop) runQuic(f []string) core.Outcome {
 		return string([]byte{digit(st.Pool[quicKey]), digit(st.Pool[udpKey])})
 	}
 	maxOpen := 0
+	var opened, poss []int // open listeners in order; the configs that may be active
+	has := func(xs []int, x int) bool {
+		for _, y := range xs {
+			if y == x {
+				return true
+			}
+		}
+		return false
+	}
+	track := func(op quicOp) {
+		switch op.kind {
+		case 'l':
+			if len(opened) == 0 {
+				poss = []int{op.gen}
+			}
+			opened = append(opened, op.gen)
+		case 'c':
+			var rest []int
+			for _, g := range opened {
+				if g != op.gen {
+					rest = append(rest, g)
+				}
+			}
+			var np []int
+			for _, g := range poss {
+				if g != op.gen {
+					np = append(np, g)
+				}
+			}
+			if has(poss, op.gen) {
+				np = append(np, rest...)
+			}
+			opened, poss = rest, np
+		}
+	}
+	distinct := func(xs []int) int {
+		seen := map[int]bool{}
+		for _, x := range xs {
+			seen[x] = true
+		}
+		return len(seen)
+	}
+	ambiguous := false
+	pickTags := map[string]bool{}
 	for _, op := range ops {
+		track(op)
 		switch op.kind {
 		case 'l':
 			cert, err := quicCert(op.gen)
@@ -172,7 +218,23 @@ func (p *prop) runQuic(f []string) core.Outcome {
 				cn = strings.TrimPrefix(pcs[0].Subject.CommonName, "gen")
 			}
 			_ = conn.CloseWithError(0, "")
-			out = append(out, cn)
+			if distinct(poss) > 1 && len(cn) == 1 && has(poss, int(cn[0]-'0')) {
+				ambiguous = true
+				out = append(out, "?") // the runtime's choice among the possible ones
+				oldest := poss[0]
+				for _, g := range poss {
+					if g < oldest {
+						oldest = g
+					}
+				}
+				if int(cn[0]-'0') == oldest {
+					pickTags["quic-map-order-picked-the-oldest"] = true
+				} else {
+					pickTags["quic-map-order-picked-a-newer-one"] = true
+				}
+			} else {
+				out = append(out, cn)
+			}
 			if _, open := lns[int(cn[0]-'0')]; len(cn) == 1 && !open {
 				fails = append(fails, core.Failure{Class: "quic-handshake-answered-by-closed-config", What: fmt.Sprintf("handshake answered with the certificate of generation %s, whose listener is closed (open: %d listeners)", cn, len(lns))})
 			}
@@ -189,15 +251,22 @@ func (p *prop) runQuic(f []string) core.Outcome {
 		fails = append(fails, core.Failure{Class: "quic-listener-leaked", What: "after closing every listener the pool still has quic/udp refs " + r})
 	}
 	tags := []string{"quic", fmt.Sprintf("quic-max-open-%d", maxOpen)}
+	if ambiguous {
+		tags = append(tags, "quic-active-config-chosen-by-map-order")
+	}
+	for t := range pickTags {
+		tags = append(tags, t)
+	}
 	return core.Outcome{Impl: strings.Join(out, " "), Tags: tags, Failures: fails}
 }
 
 var quicFixed = []string{
 	"l0;q;c0;q", "l0;l1;q;c0;q;c1", "l0;l1;q;c1;q;c0", "l0;q;l1;q;c0;q;l2;q;c1;q;c2", "l0;l1;l2;q;c1;q;c0;q;c2", "l0;l1;c0;l2;q;c1;q;c2",
 	"l0;l1;l2;c2;c1;q;c0", "l0;c0;l1;q;c1", "l3;l1;q;c3;q;l0;c1;q;c0",
+	"l0;l1;l2;c0;q;q;c1;q;c2", "l0;l1;l2;c0;q;c2;q;c1", "l0;l1;l2;c0;l3;q;c1;q;c2;q;c3", "l0;l1;l2;c0;q;l3;c3;q;c1;c2;q",
 }
 
-var quicMalformed = []string{"quic", "quic l0;l0", "quic c0", "quic l0;l1;l2;l3", "quic l0;l1;l2;c0", "quic la", "quic l0;;q", "quic l0 q", "quic l0;c0;l0"}
+var quicMalformed = []string{"quic", "quic l0;l0", "quic c0", "quic l0;l1;l2;l3", "quic la", "quic l0;;q", "quic l0 q", "quic l0;c0;l0"}
 
 func genQuic(rng *core.Rand, emit func(string), n int) {
 	for _, s := range quicFixed {
@@ -218,9 +287,6 @@ func genQuic(rng *core.Rand, emit func(string), n int) {
 				next++
 			case x < 7 && len(open) > 0:
 				at := rng.Intn(len(open))
-				if at == 0 && len(open) >= 3 {
-					at = 1
-				}
 				ops = append(ops, fmt.Sprintf("c%d", open[at]))
 				open = append(open[:at], open[at+1:]...)
 			case len(open) > 0:
